@@ -14,7 +14,8 @@ open MindsVerif.Fallback MindsVerif.Gen
 def G : Tables :=
   { typesMap := SaTables.typesMapKeys, methods := SaTables.methods, functions := SaTables.functionsKeys,
     opmap := SaTables.opmap, listOps := SaTables.listOps, textHas := SaTables.textHas,
-    tupleIsList := SaTables.tupleIsList, dupExc := excOfProbe SaTables.dupExc }
+    tupleIsList := SaTables.tupleIsList, dupExc := excOfProbe SaTables.dupExc,
+    funcPyAttrs := SaTables.funcPyAttrs, funcGuard := SaTables.funcGuard }
 
 def hexVal (c : Char) : Nat :=
   if c.isDigit then c.toNat - '0'.toNat else if 'a' ≤ c ∧ c ≤ 'f' then c.toNat - 'a'.toNat + 10 else 0
@@ -67,7 +68,7 @@ def tagOf (name : String) (f : List String) : Option Tag :=
   | "ident", [n, s, a] => some (.ident (n.toNat?.getD 0) (unhex s) (alOf a))
   | "select", [m, a] => some (.select (modeOf m) (alOf a))
   | "union", [u, a] => some (.union (boolOf u) (alOf a))
-  | "func", [d, h, a] => some (.func (boolOf d) (boolOf h) (alOf a))
+  | "func", [n, d, h, a] => some (.func (unhex n) (boolOf d) (boolOf h) (alOf a))
   | "binop", [o, a] => some (.binop (unhex o) (alOf a))
   | "unop", [o, a] => some (.unop (unhex o) (alOf a))
   | "between", [a] => some (.between (alOf a))
